@@ -96,8 +96,13 @@ func (c *ChecksumChecker) checksum(t *ast.Task) (string, error) {
 	h := xxh3.New()
 	buf := make([]byte, 128*1024)
 	for _, f := range sources {
-		// also sum the filename, so checksum changes for renaming a file
-		if _, err := io.CopyBuffer(h, strings.NewReader(filepath.Base(f)), buf); err != nil {
+		// also sum the filename (relative to the task's directory), so checksum
+		// changes for renaming a file or moving it to another directory
+		name, err := filepath.Rel(t.Dir, f)
+		if err != nil {
+			name = f
+		}
+		if _, err := io.CopyBuffer(h, strings.NewReader(filepath.ToSlash(name)), buf); err != nil {
 			return "", err
 		}
 		f, err := os.Open(f)
